@@ -5,6 +5,7 @@ import (
 	"math"
 	"regexp"
 	"strconv"
+	"strings"
 	"unicode/utf16"
 )
 
@@ -22,7 +23,10 @@ func floatToString(value float64, bitsize int) string {
 		}
 		return "Infinity"
 	}
-	exponent := math.Log10(math.Abs(value))
+	// ECMA-262 9.8.1 chooses the notation from the decimal exponent of the shortest digit string
+	// (s × 10^(n−k) with n−1 = exponent below), not from a rounded logarithm of the value.
+	text := strconv.FormatFloat(value, 'e', -1, bitsize)
+	exponent, _ := strconv.Atoi(text[strings.LastIndexByte(text, 'e')+1:])
 	if exponent >= 21 || exponent < -6 {
 		return matchLeading0Exponent.ReplaceAllString(strconv.FormatFloat(value, 'g', -1, bitsize), "$1$2")
 	}
